@@ -509,6 +509,52 @@ def read_setter_rows():
     return rows
 
 
+def read_ctor_rows():
+    """wntr/network/model.py add_junction / add_tank / ... (model and registries): what each PARAMETER goes through before it is stored.
+    A parameter may be normalised by a function of itself (float(p), bool(int(p)), a default for None); a parameter that is re-assigned
+    from an expression that does not mention it, or that mentions another parameter / the registry (min_vol = f(vol_curve, min_level)),
+    is `readsOther`: the element then does not hold what the dictionary said."""
+    tree = ast.parse(open(os.path.join(vlib.REPO, "wntr", "network", "model.py")).read())
+    rows = []
+    for c in [n for n in tree.body if isinstance(n, ast.ClassDef)]:
+        for f in c.body:
+            if not (isinstance(f, ast.FunctionDef) and f.name.startswith("add_") and f.name.split("_", 1)[1] in (
+                    "junction", "tank", "reservoir", "pipe", "pump", "valve", "curve", "pattern", "source")):
+                continue
+            params = [a.arg for a in f.args.args[1:]]
+            for prm in params:
+                atoms = []
+                for st in ast.walk(f):
+                    if not (isinstance(st, ast.Assign) and len(st.targets) == 1 and isinstance(st.targets[0], ast.Name) and st.targets[0].id == prm):
+                        continue
+                    names = {n.id for n in ast.walk(st.value) if isinstance(n, ast.Name)}
+                    calls = [ast.unparse(n.func) for n in ast.walk(st.value) if isinstance(n, ast.Call)]
+                    if isinstance(st.value, (ast.Constant, ast.List, ast.Tuple, ast.Dict)) and not names:
+                        atoms.append("constChoice")  # a default
+                    elif (isinstance(st.value, ast.Call) and isinstance(st.value.func, ast.Name) and st.value.func.id[:1].isupper()
+                          and any(isinstance(a, ast.Name) and a.id == prm for a in list(st.value.args) + [k.value for k in st.value.keywords])):
+                        atoms.append("copy")  # wrapped into the object that holds it: Pattern(name, multipliers=pattern, ...)
+                    elif prm in names and not ((names - {prm, "np", "six", "LinkStatus", "float", "int", "bool", "str", "list", "tuple"}) & (set(params) | {"self"})):
+                        for fn in calls:
+                            atoms.append(ATOM_CALLS.get(fn, "enumCoerce" if fn.split(".")[0] in ENUM_NAMES else ("upper" if fn.endswith(".upper") else "other")))
+                        if isinstance(st.value, ast.Subscript) and isinstance(st.value.value, ast.Name) and st.value.value.id in ENUM_NAMES:
+                            atoms.append("enumCoerce")
+                        if any(isinstance(n, (ast.BinOp, ast.UnaryOp)) for n in ast.walk(st.value)):
+                            atoms.append("other")
+                    elif prm in names and isinstance(st.value, ast.Call) and ast.unparse(st.value.func) in ("self.get_pattern", "self._pattern_reg.__getitem__"):
+                        atoms.append("enumCoerce")  # a name resolved to the registered object of that name
+                    else:
+                        atoms.append("readsOther")
+                seen = []
+                for a in atoms:
+                    if a not in seen:
+                        seen.append(a)
+                rows.append(("%s.%s" % (c.name, f.name), prm, seen, False))
+    if not any(r[0].endswith("add_tank") for r in rows):
+        raise BrokenTie("wntr/network/model.py: no add_tank found")
+    return rows
+
+
 def read_element_reader(src):
     """ast of from_dict's helper `_control_element`: the type words it looks up as nodes / as links, a fallback on the name, the final return"""
     fn = [n for n in ast.parse(src).body if isinstance(n, ast.FunctionDef) and n.name == "from_dict"][0]
@@ -613,7 +659,7 @@ def reflect_sections(wntr):
     return em, rel
 
 
-def gen_sections_lean(opt_tables, em, model_rows, branches, rel, setters=None, elem_reader=None, writer_words=None):
+def gen_sections_lean(opt_tables, em, model_rows, branches, rel, setters=None, elem_reader=None, writer_words=None, ctors=None):
     out = ["-- GENERATED by harness/props/c13.py from wntr/network/io.py:from_dict, options.py (ast) and to_dict (reflection). Do not edit.",
            "import WntrModel.Model.SchemaSections", "namespace Wntr.Schema.Gen", "open Wntr.Schema", ""]
 
@@ -671,6 +717,12 @@ def gen_sections_lean(opt_tables, em, model_rows, branches, rel, setters=None, e
     out.append("def setterRows : List Setters.SetterRow := [")
     out.append(",\n".join("  { cls := %s, key := %s, atoms := [%s], validates := %s }" % (_ls(c), _ls(k), ", ".join("." + a for a in atoms), "true" if v else "false")
                            for (c, k, atoms, v) in (setters or [])))
+    out.append("]")
+    out.append("")
+    out.append("/-- the parameters of add_junction / add_tank / ... (model.py): what each goes through before the element stores it -/")
+    out.append("def ctorRows : List Setters.SetterRow := [")
+    out.append(",\n".join("  { cls := %s, key := %s, atoms := [%s], validates := false }" % (_ls(c), _ls(k), ", ".join("." + a for a in atoms))
+                           for (c, k, atoms, v) in (ctors or [])))
     out.append("]")
     out.append("")
     out.append("end Wntr.Schema.Gen")
@@ -843,6 +895,115 @@ def share_names(rng, sp):
     return sp
 
 
+def edit_after_construction(rng, wn, wntr):
+    """after the model has been built, attributes are changed through their PUBLIC setters, and curve point lists in place, so that
+    what the elements hold is not what the constructors would have derived (a tank's min_vol / levels next to its volume curve, a curve
+    left out of x order, ...).  The edits keep the model valid: levels stay ordered and inside the volume curve's range."""
+    done = set()
+
+    def put(obj, attr, val):
+        setattr(obj, attr, val)
+        done.add(type(obj).__name__ + "." + attr)
+
+    for _, j in wn.junctions():
+        if rng.random() < 0.5:
+            put(j, "elevation", round(j.elevation + rng.uniform(0.1, 3), 2))
+            put(j, "emitter_coefficient", rng.choice([None, 0.002]))
+            put(j, "initial_quality", rng.choice([0.0, 0.25]))
+            put(j, "tag", rng.choice([None, "edited"]))
+            put(j, "coordinates", (round(rng.uniform(0, 9), 1), round(rng.uniform(0, 9), 1)))
+            put(j, "minimum_pressure", rng.choice([None, 1.5]))
+            put(j, "required_pressure", rng.choice([None, 21.0]))
+            put(j, "pressure_exponent", rng.choice([None, 0.6]))
+    for _, t in wn.tanks():
+        lo, hi = t.min_level, t.max_level
+        if t.vol_curve_name:
+            pts = wn.get_curve(t.vol_curve_name).points
+            lo, hi = max(lo, min(x for x, _ in pts)), min(hi, max(x for x, _ in pts))
+        room_lo, room_hi = t.init_level - t.min_level, t.max_level - t.init_level
+        if rng.random() < 0.8 and room_lo > 0.02:
+            put(t, "min_level", round(t.min_level + room_lo * rng.uniform(0.2, 0.9), 3))
+        if rng.random() < 0.6 and room_hi > 0.02:
+            put(t, "max_level", round(t.max_level - room_hi * rng.uniform(0.2, 0.9), 3))
+        if rng.random() < 0.7:
+            put(t, "min_vol", round(rng.uniform(0.5, 40.0), 2))
+        if rng.random() < 0.5:
+            put(t, "diameter", round(t.diameter + rng.uniform(0.5, 3), 2))
+            put(t, "elevation", round(t.elevation + rng.uniform(0.1, 2), 2))
+            put(t, "bulk_coeff", rng.choice([None, -1e-6]))
+            put(t, "overflow", not t.overflow)
+        if rng.random() < 0.3:
+            vols = [n for n in wn.curve_name_list if wn.get_curve(n).curve_type == "VOLUME" and n != t.vol_curve_name]
+            ok = [n for n in vols if min(x for x, _ in wn.get_curve(n).points) <= t.min_level and t.max_level <= max(x for x, _ in wn.get_curve(n).points)]
+            if ok:
+                put(t, "vol_curve_name", rng.choice(ok))
+    for _, r in wn.reservoirs():
+        if rng.random() < 0.5:
+            put(r, "base_head", round(r.base_head + rng.uniform(0.5, 5), 2))
+            put(r, "head_pattern_name", rng.choice([None] + list(wn.pattern_name_list)))
+    for _, l in wn.pipes():
+        if rng.random() < 0.5:
+            put(l, "length", round(l.length * rng.uniform(1.1, 2), 2))
+            put(l, "diameter", round(l.diameter * 1.5, 4))
+            put(l, "roughness", rng.choice([90.0, 120.0, 0.26]))
+            put(l, "minor_loss", rng.choice([0.0, 0.9]))
+            put(l, "initial_status", rng.choice(["OPEN", "CLOSED"]) if not l.check_valve else l.initial_status)
+            put(l, "bulk_coeff", rng.choice([None, -2e-6]))
+            put(l, "wall_coeff", rng.choice([None, -1e-7]))
+            put(l, "vertices", [(1.5, 2.5)] if rng.random() < 0.5 else [])
+    for _, l in wn.pumps():
+        if rng.random() < 0.5:
+            put(l, "base_speed", rng.choice([0.7, 1.0, 1.2]))
+            put(l, "speed_pattern_name", rng.choice([None] + list(wn.pattern_name_list)))
+            put(l, "initial_status", rng.choice(["OPEN", "CLOSED"]))
+            put(l, "energy_price", rng.choice([None, 0.11]))
+            if l.pump_type == "POWER":
+                put(l, "power", round(l.power * 1.3, 2))
+            else:
+                heads = [n for n in wn.curve_name_list if wn.get_curve(n).curve_type == "HEAD"]
+                if heads:
+                    put(l, "pump_curve_name", rng.choice(heads))
+    for _, l in wn.valves():
+        if rng.random() < 0.5:
+            put(l, "diameter", round(l.diameter * 1.25, 4))
+            put(l, "minor_loss", rng.choice([0.0, 1.2]))
+            if l.valve_type != "GPV":
+                put(l, "initial_setting", round(float(l.initial_setting) * 1.1 + 0.01, 4))
+            put(l, "initial_status", rng.choice(["OPEN", "CLOSED", "ACTIVE"]))
+    vol_used = {t.vol_curve_name for _, t in wn.tanks() if t.vol_curve_name}
+    for nm in wn.curve_name_list:
+        c = wn.get_curve(nm)
+        if nm in vol_used or len(c.points) < 2 or rng.random() < 0.5:
+            continue
+        k = rng.choice(["append-unsorted", "replace-first", "duplicate-x", "setter"])
+        xs = [x for x, _ in c.points]
+        if k == "append-unsorted":
+            c.points.append((round((xs[0] + xs[1]) / 2, 5), 12.0))   # in place: the list is left out of x order
+        elif k == "replace-first":
+            c.points[0] = (round(xs[-1] * 1.5 + 0.01, 5), c.points[0][1])
+        elif k == "duplicate-x":
+            c.points.append((xs[0], c.points[0][1] - 1.0))
+        else:
+            c.points = list(reversed(c.points))                      # through the setter (which sorts)
+        done.add("Curve.points:" + k)
+    for nm in wn.pattern_name_list:
+        if rng.random() < 0.3:
+            put(wn.get_pattern(nm), "multipliers", [round(rng.uniform(0.2, 1.8), 2) for _ in range(rng.randint(1, 5))])
+    return done
+
+
+def apply_post(wntr, wn, sp):
+    """the seeded post-construction steps recorded in a spec (`_time_seed`, `_edit_seed`)"""
+    import random
+
+    out = []
+    if sp.get("_time_seed") is not None:
+        out.append("case:time-steps " + cross_time_options(random.Random(sp["_time_seed"]), wn))
+    if sp.get("_edit_seed") is not None:
+        out += ["edited:" + e for e in edit_after_construction(random.Random(sp["_edit_seed"]), wn, wntr)]
+    return out
+
+
 def cross_time_options(rng, wn):
     """time steps in every order relation to the hydraulic step (rule > hydraulic as after reading Anytown.inp, report < hydraulic,
     pattern != hydraulic, quality > hydraulic ...), assigned in a random order"""
@@ -998,7 +1159,7 @@ class C13(Check):
         ctx.cov["option_fields"] = sum(len(t[1]) for t in opt_tables[1:])
         ctx.cov["simple_reader"] = "coded(_read_control_line)" if self.simple_via_control_line else "repaired(text as written)"
         vlib.write_if_changed(os.path.join(vlib.GEN, "SchemaSections.lean"), gen_sections_lean(opt_tables, sem, sr.model_rows(), self.branches, rel, setters,
-                                                                                                       read_element_reader(io_src), reflect_writer_words(wntr)))
+                                                                                                       read_element_reader(io_src), reflect_writer_words(wntr), read_ctor_rows()))
 
     # ---------------------------------------------------------------- cases
     def _cases(self, ctx, wntr):
@@ -1078,8 +1239,16 @@ class C13(Check):
                             ctx.count("case:leak-added-and-removed")
                     if sp is not None and sp.get("_shared_names"):
                         ctx.count("case:node-and-link-share-a-name")
-                    if sp is not None and ctx.rng.random() < 0.5:
-                        ctx.count("case:time-steps " + cross_time_options(ctx.rng, wn))
+                    if sp is not None and not label.startswith("corpus:"):
+                        # the seeds of the post-construction steps travel with the spec, so that a replay rebuilds the same model
+                        sp = dict(sp)
+                        if ctx.rng.random() < 0.5:
+                            sp["_time_seed"] = ctx.rng.randrange(1 << 30)
+                        if ctx.rng.random() < 0.5:
+                            sp["_edit_seed"] = ctx.rng.randrange(1 << 30)
+                    if sp is not None:
+                        for e in apply_post(wntr, wn, sp):
+                            ctx.count(e)
                     if sp is not None and ctx.rng.random() < 0.3:
                         # option groups the generator leaves alone: report, graphics, user
                         o = wn.options
@@ -1317,6 +1486,8 @@ class C13(Check):
         print(json.dumps({k: v for k, v in r.items() if k != "replay"}, indent=1)[:2000])
         sp = rp.get("spec")
         wn = G.realise(wntr, sp) if sp else wntr.network.read_inpfile(rp["inp"])
+        if sp:
+            apply_post(wntr, wn, sp)
         d0 = wntr.network.to_dict(wn)
         dn = normalise(d0, wn.options.hydraulic.pattern or None)
         hit = []
